@@ -151,6 +151,9 @@ class World:
         proc.add_state_event_callback(state_machine.StateEventHook.ENTERED_STATE, self._entered)
         proc.add_state_event_callback(state_machine.StateEventHook.ENTERING_STATE, self._entering)
 
+    def ctor_kwargs(self) -> Dict[str, Any]:
+        return {}
+
     def attach_other(self, proc: Any) -> None:
         self.others.append(proc)
 
@@ -368,7 +371,7 @@ def make_runner(cfg_for: Callable[[Any], Config], oracle_factory: Callable[[Any]
             prev_env = programs.ENV
             programs.ENV = world
             try:
-                proc = cls(pid='p0', loop=loop)
+                proc = cls(pid='p0', loop=loop, **world.ctor_kwargs())
                 world.listener = ScriptedListener(world, world.script)
                 proc.add_process_listener(world.listener)
                 proc.add_cleanup(lambda: setattr(world, 'cleanups', world.cleanups + 1))
